@@ -337,3 +337,12 @@ def parse_dump_as_parsed(parser, dumper, text):
     # C07: parsing with dump_as_parsed and converting back to text reproduces the input
     q = parser.parse(text, dump_as_parsed=True)
     assert dumper.dump(q, q._dump_format) == text
+
+
+def strftime_strptime_round_trip(p, parser, fmt):
+    # C17: strptime with the same format recovers an equal TimePoint (full formats)
+    s = p.strftime(fmt)
+    q = parser.strptime(s, fmt)
+    assert q == p
+    assert q._time_zone._hours == p._time_zone._hours
+    assert q._time_zone._minutes == p._time_zone._minutes
